@@ -27,7 +27,9 @@ META = {
     "technique": "CNames.tla (identifier mangling of genc.c, exhaustive over a small alphabet; exact collision condition) + COpts.tla "
                  "(option machine, exports the configuration space) + AldorSem.tla (expected behaviour); every (program, configuration) "
                  "is compiled, every emitted C file is compiled and linked by gcc, run and compared; the names in the emitted C are "
-                 "judged by TraceCNames.tla",
+                 "judged by TraceCNames.tla; CSplitFn/CSplit/CSplitPlan.tla (the split decision as a function of the unit's statement estimate S "
+                 "and the limit N, the machine that cuts a unit into files, the limits to replay for a MEASURED S) and CDeclFn/CDecl/CDeclEval.tla "
+                 "(declarator and calling convention per parameter kind and dialect; behaviour of the declarator family; judging of recorded heads)",
     "design_ref": "DESIGN.md 3.13 (CNames), 5 C16",
     "level_text": "TLC checks the transcription of the C generator's identifier construction exhaustively over a small alphabet (names up "
                   "to 4..6 characters, limits 0/3/4/7/8/12, a tiny hash) and derives the exact condition under which two entities get one "
@@ -38,7 +40,19 @@ META = {
                   "output and judged for distinctness by TLC (TraceCNames.tla); spelling is compared with CNames!MangleH as drift only. "
                   "Name pairs that satisfy the derived collision condition under the real hash are found by TLC (CNamesSearch.tla) and "
                   "replayed, also as programs of two units; fixed multi-unit / foreign-export scenarios cover the name-keyed identifiers "
-                  "(unit initialisers, static closures) and the part files of split units.",
+                  "(unit initialisers, static closures) and the part files of split units. "
+                  "File splitting: TLC checks CSplit.tla (gc0ExternDecls + emitTheC transcribed: loop, gc0OverSMax sites, header placement, file "
+                  "naming) over every unit shape up to 4..5 programs and every limit, i.e. every S = N, N+-1, k*N, N = 1 and brother parts that hold "
+                  "only their initialisation function; for real units the harness measures S on the compiler (bisection on -Csmax observing <unit>.h), "
+                  "CSplitPlan.tla derives the limits {S-2..S+2, S/2-1..S/2+1, S/3, S/3+1, the two largest divisors, 1, 2} with split / file count / "
+                  "header, and every (unit, limit, dialect) is compiled, linked, run and compared with the AldorSem output (file counts: drift). "
+                  "Declarators: TLC checks CDecl.tla (every signature of up to 2..3 parameters over value / raw array / return slot of every "
+                  "scalar C type: the head is read back by a C compiler with the intended types in both dialects, caller and callee of one "
+                  "dialect agree on the machine class of every argument; across dialects they do not: recorded finding); the declarator family "
+                  "(gen/c16_decl.py: user-defined domains in PrimitiveArray / Array -> compiler-generated PackedArrayGet/Set with `T *' "
+                  "parameters, SFlo/DFlo/Char/HInt/XByte/Bool/Arr/Ptr/closure parameters, multiple-value returns, Foreign C exports) is run "
+                  "under -Cstandard, -Cold and -Cold -Csmax=k at -Q0..-Q3 against libraries of the same dialect, outputs defined by "
+                  "CDeclEval.tla, and every function head emitted in both dialects is judged by TLC (CDeclFn!ReadParam).",
     "level_note": "Trusted: AldorSem.tla, the renderer, gcc, the shipped headers. Collisions inside a function body or a struct are left to "
                   "gcc (they are compile errors). Limits other than the default are also exercised against libraries regenerated with the "
                   "same limit (the shipped archives only fit the default limit: recorded finding). -Cno-idhash and limits below the default "
@@ -1127,10 +1141,17 @@ def run(chk, tier):
                 "{lines,no-lines}; quick: 16 of the 80 with every value of every dimension); programs = generated family with TLC-derived "
                 "output, renamed plain / long (20..80 characters, shared prefixes of every length) / operator characters, plus programs "
                 "carrying name pairs TLC derived from the collision condition; a case is (program, name style, configuration, library "
-                "route); non-trivial = the specification assigns a non-empty output")
+                "route); non-trivial = the specification assigns a non-empty output.  Split boundaries: (unit, limit from CSplitPlan.tla "
+                "for the measured estimate, dialect), non-trivial = the limit is a boundary (N in S-1..S+1, S mod N in {0,1}, N <= 2).  "
+                "Declarator family: (program, -Q level, options, library route)")
     chk.assumptions += ["gcc -O0 with -Werror=implicit-function-declaration stands for 'compiles without error'",
                         "collisions of names inside one function body or struct are compile errors and are left to gcc",
-                        "entity identity = the identifier at the same token position of the -Cidlen=0 output of the same program and options"]
+                        "entity identity = the identifier at the same token position of the -Cidlen=0 output of the same program and options",
+                        "the statement estimate of a unit is not revised while the unit is generated (no Seq directly inside a Seq in the FOAM of the "
+                        "replayed programs); it is measured as the smallest -Csmax under which no <unit>.h is written",
+                        "-Cold output with SFlo parameters is judged against libaxllib/runtime regenerated under -Cold (the dialect mix with the shipped "
+                        "standard-C archives is a recorded finding, kept visible by one run)",
+                        "floating values of the declarator family are multiples of 1/4 below 2^20 (exact in single precision), carried as integers in the model"]
     marks["end"] = time.time() - t_start
     chk.extra["wall_marks_s"] = {k: round(v, 1) for k, v in marks.items()}
 
@@ -1192,6 +1213,22 @@ corrupted record: VERIF_C16_CORRUPT=1 rewrites one field of one recorded Names e
   ("two distinct entities get the C name C0_p (extern scope) ...").
 
 unchanged tree: held (exit 0, KNOWN-FINDING lines only) with VERIF_SEED = default, 11 and 977.
+
+Strengthening round (2026-10-04, split boundaries + declarators; worktrees /tmp/wt-c16A/C/F, removed):
+  seeded C16-1 (loop `nStmts >= gcvSMax')  caught: link-fail at the split boundary N = S (the measured S is one more than the true
+        estimate, the failing limit is reported as N=S-1); 14 violations, all from section 8c
+  seeded C16-3 (K&R declaration prints argv[0])  caught: signal 11 in every -Cold run of the declarator family below -Q3 and in the
+        -Cold boundary runs of the declarator unit, plus `declarator-mismatch' from CDeclEval (dialects-differ-P0_x0)
+  seeded C16-2 (qname[64])  still caught (name conflicts under idlen 64 / 0 with -Csmax)
+  M9  genc.c gc0OverSMax(): `gcvNStmts > gcvSMax' -> `>='  NOT a violation (exit 0): at N = S the unit becomes <unit>.h + one C file, which is
+        valid C and behaves; recorded as split_file_count_drift (17 runs: 1 C file + header where CSplitFn says 2)
+  M10 ccode.c old-C CCOX_HdParam prints argv[2] (the declarator) -> caught (link-fail under every -Cold configuration: `main(argc, **argv)';
+        CDeclEval also reports the PackedArrayGet/Set/asum heads)
+  M11 genc.c gc0TypeRequiresDecl: FOAM_SFlo -> false (calls with SFlo arguments lose the prototype cast) -> caught ONLY by the declarator
+        family: wrong-output under -Cstandard and -Cold at every level
+  corrupted record: VERIF_C16_CORRUPT=1 also removes the star from one recorded old-C declaration -> CDeclEval BADHEAD, exit 1
+  spec self-tests: CSplit.tla with the loop condition `>=' violates LoopAgreesWithMacro; CDeclFn.tla with the old-C declaration list
+        printing the id instead of the declarator violates PrinterFaithful (initial state <<arr FiWord>>, callee old)
 
 candidate patches tried with VERIF_SRC=/tmp/wt-c16fix: hooks/candidate-C16-link-names-independent-of-idlen.diff makes all shipped-route
   runs conform (0 of 66 bad; the finding `library-global-names-depend-on-idlen` disappears); hooks/candidate-C16-split-part-file-names.diff
